@@ -172,7 +172,7 @@ def _pair(d, i, j):
     return d.get((i, j) if i < j else (j, i), 0.0)
 
 
-def validate(order_idx, rel, red, rla, strategy, alpha, beta):
+def validate(order_idx, rel, red, rla, strategy, alpha, beta, rel_tol=1e-9):
     """order_idx: the returned order as indices. Returns None or a message."""
     n = len(rel)
     if rel[order_idx[0]] != max(rel):
@@ -183,7 +183,7 @@ def validate(order_idx, rel, red, rla, strategy, alpha, beta):
     for k in range(1, n):
         ranked = order_idx[:k]
         mult = k if strategy == 'sum' else 1
-        tol = 1e-9 * (mrel + alpha * mred * mult + beta * mrla * mult) + 1e-300
+        tol = rel_tol * (mrel + alpha * mred * mult + beta * mrla * mult) + 1e-300
         imps = {}
         for c in order_idx[k:]:
             imps[c] = (rel[c] - alpha * _agg([_pair(red, r, c) for r in ranked], strategy)
@@ -197,7 +197,7 @@ def validate(order_idx, rel, red, rla, strategy, alpha, beta):
     return None
 
 
-def check_output(df, feats, rel, red, rla, strategy, alpha, beta):
+def check_output(df, feats, rel, red, rla, strategy, alpha, beta, rel_tol=1e-9):
     n = len(feats)
     cols = list(df.columns)
     if 'Feature' not in cols or '3MR_Ranking' not in cols:
@@ -210,12 +210,14 @@ def check_output(df, feats, rel, red, rla, strategy, alpha, beta):
         return f'ranks are {ranks!r}, expected 1..{n} in list order', None
     pos = {f: i for i, f in enumerate(feats)}
     order_idx = [pos[f] for f in out]
-    return validate(order_idx, rel, red, rla, strategy, alpha, beta), order_idx
+    return validate(order_idx, rel, red, rla, strategy, alpha, beta, rel_tol), order_idx
 
 
 def oracle(case, rec):
     feats, rel, red, rla, red_self, rla_self = materialize(case)
     strategy, alpha, beta = case['strategy'], float(case['alpha']), float(case['beta'])
+    # numpy float32 scalars are added in single precision inside the function: importances are compared at that resolution
+    RT = 2e-5 if case.get('np_scalars') else 1e-9
     relevance, redundancy, relation = build_dicts(feats, rel, red, rla, red_self, rla_self)
     ints = case.get('int_scores', 'none') if 'gen' not in case else case['gen'].get('int_scores', 'none')
     if case.get('np_scalars'):
@@ -256,7 +258,7 @@ def oracle(case, rec):
     # the strategy name arrives as a run-time string (argparse / a config file), equal to but not the same object as any literal
     strategy_arg = (strategy + ' ').strip() if (n + len(red)) % 2 else strategy
     df = rank_features_3MR(R, D, L, strategy=strategy_arg, alpha=alpha, beta=beta)
-    msg, order_idx = check_output(df, feats, rel, red, rla, strategy, alpha, beta)
+    msg, order_idx = check_output(df, feats, rel, red, rla, strategy, alpha, beta, RT)
     if msg is None and case.get('again') and n >= 1:
         # the caller edits the RESULT frame in place (drops a row, re-indexes) and asks again for the same scores with fresh copies of
         # the dictionaries: the second answer is a complete ranking again
@@ -266,7 +268,7 @@ def oracle(case, rec):
         except Exception:  # noqa: BLE001
             pass
         df_b = rank_features_3MR(dict(R), dict(D), dict(L), strategy=(strategy + ' ').strip(), alpha=alpha, beta=beta)
-        msg_b, _ = check_output(df_b, feats, rel, red, rla, strategy, alpha, beta)
+        msg_b, _ = check_output(df_b, feats, rel, red, rla, strategy, alpha, beta, RT)
         rec.cls('ranked-again-after-editing-the-result')
         if msg_b is not None:
             msg = 'second call with equal scores after the caller edited the first result frame in place: ' + msg_b
@@ -288,7 +290,7 @@ def oracle(case, rec):
             R[f] = rel[pos[f]]
         rec.cls('ranked-again-after-in-place-update')
         df = rank_features_3MR(R, D, L, strategy=strategy, alpha=alpha, beta=beta)
-        msg, order_idx = check_output(df, feats, rel, red, rla, strategy, alpha, beta)
+        msg, order_idx = check_output(df, feats, rel, red, rla, strategy, alpha, beta, RT)
         if msg is not None:
             msg = f'call #{round_ + 2} on the same dictionary objects after an in-place update of the scores: ' + msg
     rec.cls('strategy=' + strategy, 'n=1' if n == 1 else 'n=2' if n == 2 else 'n<=6' if n <= 6 else 'n<=30',
